@@ -555,6 +555,8 @@ def run(prog, rep, tier):
     r02_2(prog, rep)
     r02_4(prog, rep)
     r02_5(prog, rep)
+    from .c01 import r02_8
+    r02_8(prog, rep)
     # R02.3 information
     for K in sched_classes(prog)[1]:
         f = prog.find_method(K, 'schedule_task')
